@@ -1,5 +1,6 @@
 import AmrK.TasteProofs
 import AmrK.TasteComplete
+import AmrK.TasteLevelSound
 /-! # C04 — taste rejects missing, truncated, shifted or inconsistent plotfile data
 
 Soundness of the validator's byte walk: acceptance implies a *declarative* layout of the file, so
@@ -15,6 +16,26 @@ theorem shape_check_sound (raw : Bytes) (nf : Nat) (es : List Entry) (hnd : NoDe
     (hne : es ≠ []) (hcan : ∀ e ∈ es, canonHeader e.lo e.hi nf ≠ [])
     (h : shapeOK raw nf es = true) : Layout nf raw es :=
   shapeOK_sound raw nf es hnd hne hcan h
+
+/-- **What acceptance of a level by default validation means**: the level header parses, every
+    referenced binary file is present, and for every file the header check and the byte walk both
+    accept that file's entries taken in offset order -/
+theorem level_accepts (cellH : Bytes) (nf : Nat) (files : List (String × Bytes))
+    (h : (tasteLevel cellH nf files).1 = true) :
+    ∃ entries, parseCellH cellH nf = .ok entries ∧
+      ∀ n ∈ dedup (entries.map (·.file)), ∃ raw, files.lookup n = some raw ∧
+        headersOK raw nf (sortByOffset (entries.filter (·.file == n))) = true ∧
+        shapeOK raw nf (sortByOffset (entries.filter (·.file == n))) = true :=
+  tasteLevel_accepts cellH nf files h
+
+/-- **… hence every binary file of an accepted level is a chain** along its entries in offset order -/
+theorem accepted_level_is_chain (cellH : Bytes) (nf : Nat) (files : List (String × Bytes))
+    (h : (tasteLevel cellH nf files).1 = true) :
+    ∃ entries, parseCellH cellH nf = .ok entries ∧
+      ∀ n ∈ dedup (entries.map (·.file)), ∃ raw, files.lookup n = some raw ∧
+        (NoDegenerate raw → sortByOffset (entries.filter (·.file == n)) ≠ [] →
+          Layout nf raw (sortByOffset (entries.filter (·.file == n)))) :=
+  accepted_level_layout cellH nf files h
 
 /-- a last entry's layout fixes the file length: truncating or extending the file by any number of
     bytes breaks `Layout` (the conjunct the walk checks with `bf.seek(0, 2)`) -/
